@@ -152,11 +152,16 @@ class Settings(MutableMapping):
                     )
                 self._settings[key] = collections.deque([value])
 
-    def acknowledge(self):
+    def acknowledge(self, settings=None):
         """
         The settings have been acknowledged, either by the user (remote
         settings) or by the remote peer (local settings).
 
+        :param settings: (optional) The settings carried by the SETTINGS frame
+            that is being acknowledged. Only the oldest outstanding value of
+            each of these is applied: values sent in later frames stay pending
+            until their own acknowledgement. By default, the oldest outstanding
+            value of every setting is applied.
         :returns: A dict of {setting: ChangedSetting} that were applied.
         """
         changed_settings = {}
@@ -164,6 +169,9 @@ class Settings(MutableMapping):
         # If there is more than one setting in the list, we have a setting
         # value outstanding. Update them.
         for k, v in self._settings.items():
+            if settings is not None and k not in settings:
+                continue
+
             if len(v) > 1:
                 old_setting = v.popleft()
                 new_setting = v[0]
